@@ -1443,6 +1443,14 @@ class Node:
             # only set if not yet set
             if peer.disconnect_reason is None:
                 peer.disconnect_reason = disconnect_reason
+            # the peer may hold a second established connection (it was
+            # accepted while this one existed); that one takes over
+            for other in self.connections.values():
+                if (other.host_identity == peer.node_name and
+                        other.state in PEER_READY_STATES):
+                    peer.connection = other
+                    peer.disconnect_reason = None
+                    break
 
         # Remove pending answer tracking; we cannot know if the peer will
         # persist its hop-by-hop IDs over reconnect.
